@@ -359,3 +359,51 @@ func ForwardData(kind CallKind, target common.Address, payload []byte) []byte {
 	out := append([]byte{k}, target.Bytes()...)
 	return append(out, payload...)
 }
+
+// Multicall returns the runtime code of a contract that performs a sequence of CALLs within one message. Call data
+// layout: repeated entries [32-byte word: target address][32-byte word: payload length n][n bytes payload]. Every entry
+// is CALLed with all gas and value 0; a failing inner call does not stop the sequence. The success flag of the entry
+// starting at call-data offset p is written to memory byte 0x1000+p and the whole flag area (call-data size bytes) is
+// returned.
+func Multicall() []byte {
+	p := NewProg()
+	p.PushU(0) // pos
+	p.Label("loop")
+	p.Op(CALLDATASIZE, DUP1+1, LT, ISZERO) // !(pos < size)
+	p.JumpIf("end")
+	p.Op(DUP1, CALLDATALOAD)                     // [pos, target]
+	p.Op(DUP1+1).PushU(32).Op(ADD, CALLDATALOAD) // [pos, target, len]
+	p.Op(DUP1)                                   // [pos, target, len, len]
+	p.Op(DUP1 + 3).PushU(64).Op(ADD)             // [.., len, pos+64]
+	p.PushU(0).Op(CALLDATACOPY)                  // mem[0..len) = payload ; [pos, target, len]
+	p.PushU(0).PushU(0)                          // retSize, retOffset
+	p.Op(DUP1 + 2)                               // argsSize = len
+	p.PushU(0).PushU(0)                          // argsOffset, value
+	p.Op(DUP1 + 6)                               // target
+	p.Op(GAS, CALL)                              // [pos, target, len, success]
+	p.Op(DUP1+3).PushU(0x1000).Op(ADD, MSTORE8)  // mem[0x1000+pos] = success ; [pos, target, len]
+	p.Op(SWAP1, POP)                             // [pos, len]
+	p.Op(ADD).PushU(64).Op(ADD)                  // [pos+len+64]
+	p.JumpTo("loop")
+	p.Label("end")
+	p.Op(CALLDATASIZE).PushU(0x1000).Op(RETURN)
+	return p.Assemble()
+}
+
+// MulticallEntry is one inner call of a Multicall message.
+type MulticallEntry struct {
+	To   common.Address
+	Data []byte
+}
+
+// MulticallData encodes the call data for Multicall and returns, for every entry, the offset of its success flag in the
+// returned flag area.
+func MulticallData(entries []MulticallEntry) (data []byte, flagOffsets []int) {
+	for _, e := range entries {
+		flagOffsets = append(flagOffsets, len(data))
+		data = append(data, common.LeftPadBytes(e.To.Bytes(), 32)...)
+		data = append(data, common.LeftPadBytes(new(big.Int).SetInt64(int64(len(e.Data))).Bytes(), 32)...)
+		data = append(data, e.Data...)
+	}
+	return data, flagOffsets
+}
